@@ -96,7 +96,7 @@ def _variant(args):
             p = subprocess.run(["patch", "-R", "-p1", "-s", "--no-backup-if-mismatch", "-d", tmp], input=diff.stdout, capture_output=True, text=True)
             if p.returncode != 0:
                 return {"kind": kind, "spec": spec, "skipped": "does not reverse-apply any more (later commits touched the same lines): " + (p.stdout + p.stderr)[-160:]}
-        elif kind == "seed":
+        elif kind in ("seed", "neutral"):
             p = subprocess.run(["patch", "-p1", "-s", "--fuzz=3", "--no-backup-if-mismatch", "-d", tmp, "-i", spec], capture_output=True, text=True)
             if p.returncode != 0:
                 return {"kind": kind, "spec": spec, "skipped": "patch no longer applies: " + (p.stdout + p.stderr)[-160:]}
@@ -126,6 +126,14 @@ def run(pid, rep, repo_root):
         # a seed is a regression case for its own property's check, or for the check that catches it when its own does not
         if pid in det and (own == pid or own not in det):
             jobs.append((pid, repo_root, "seed", os.path.join(os.path.dirname(meta), "patch.diff")))
+    # behaviour-preserving refactorings written by independent agents: the check must stay silent on them
+    for meta in sorted(glob.glob(os.path.join(VERIF, "neutral", "*", "meta.json"))):
+        try:
+            m = json.load(open(meta))
+        except Exception:
+            continue
+        if m.get("property") == pid:
+            jobs.append((pid, repo_root, "neutral", os.path.join(os.path.dirname(meta), "patch.diff")))
     with ProcessPoolExecutor(max_workers=min(16, len(jobs))) as ex:
         results = list(ex.map(_variant, jobs))
     base = _verdicts(rep)
@@ -136,8 +144,8 @@ def run(pid, rep, repo_root):
     for r in results:
         d = {"kind": r["kind"], "spec": os.path.relpath(r["spec"], VERIF) if r["spec"].startswith(VERIF) else r["spec"]}
         if "error" in r or "analysis_error" in r:
-            if r["kind"] in ("normalised", "renamed"):
-                problems.append(f"{r['kind']} copy: {r.get('error') or r.get('analysis_error')}")
+            if r["kind"] in ("normalised", "renamed", "neutral"):
+                problems.append(f"{r['kind']} {d['spec']}: {r.get('error') or r.get('analysis_error')}")
             else:
                 # a mutant that removes an anchor is an honest 'cannot decide', but the self-test expects a violation
                 d["note"] = "ANALYSIS-ERROR on the variant: " + (r.get("error") or r.get("analysis_error"))[:160]
@@ -145,6 +153,13 @@ def run(pid, rep, repo_root):
         elif "skipped" in r:
             summary["skipped"] += 1
             d["note"] = r["skipped"]
+        elif r["kind"] == "neutral":
+            new = [v for v in r["violations"] if v not in open_known]
+            if new:
+                problems.append(f"false alarm on the behaviour-preserving refactoring {d['spec']}: {new[:3]}")
+            else:
+                summary["silent_ok"] += 1
+                d["note"] = "no violation on a behaviour-preserving refactoring"
         elif r["kind"] in ("normalised", "renamed"):
             if r["verdicts"] == base:
                 summary["silent_ok"] += 1
